@@ -5,7 +5,9 @@ cd /verif
 declare -A TARGET=( [F10-revert]="C04" [F4-revert]="C04" [F8a-revert]="C19" [F5F6-revert]="C12 C14" [F5p-revert]="C12" [F9a-revert]="C08 C13" [C12]="C12 C07" [C13]="C13 C12" [C12-r2]="C12 C08" )
 seeds=${@:-$(ls seeded)}
 for s in $seeds; do
-  props=${TARGET[$s]:-${s%-r2}}
+  [ -d seeded/$s ] || continue
+  base=${s%-r[0-9]}
+  props=${TARGET[$s]:-$base}
   patch=$(realpath seeded/$s/patch.diff)
   ( cd /repo && git apply --check "$patch" 2>/dev/null ) || { echo "$s: PATCH DOES NOT APPLY"; continue; }
   ( cd /repo && git apply "$patch" )
